@@ -5,6 +5,9 @@ package nfsv4
 // Contracts for the govc verifier (/verif). This file contains comments only;
 // it does not change the compiled package.
 
+// ---------------------------------------------------------------------------
+// Lock wrappers (C14)
+
 //@ func (*nfs40Program).enter
 //@   props C14
 //@   lockeffect p.lock +1
@@ -17,3 +20,190 @@ package nfsv4
 //@ func (*nfs41Program).leave
 //@   props C14
 //@   lockeffect p.clientsLock -1
+
+// ---------------------------------------------------------------------------
+// Byte-range conversions (C20)
+
+//@ func offsetLengthToStartEnd
+//@   props C20
+//@   ensures zero-length-invalid: length == 0 ==> r2 == nfsv4.NFS4ERR_INVAL
+//@   ensures all-ones-is-to-eof: length == MaxUint64 ==> r2 == nfsv4.NFS4_OK && r0 == offset && r1 == MaxUint64
+//@   ensures overflow-invalid: length != 0 && length != MaxUint64 && offset + length > MaxUint64 ==> r2 == nfsv4.NFS4ERR_INVAL
+//@   ensures exact-range: length != 0 && length != MaxUint64 && offset + length <= MaxUint64 ==>
+//@             r2 == nfsv4.NFS4_OK && r0 == offset && r1 == offset + length
+//@   ensures ok-or-inval: r2 == nfsv4.NFS4_OK || r2 == nfsv4.NFS4ERR_INVAL
+//@   ensures ordered: r2 == nfsv4.NFS4_OK ==> r0 <= r1 && (r0 == r1 ==> offset == MaxUint64)
+
+//@ func nfsLockType4ToByteRangeLockType
+//@   props C20
+//@   ensures read-is-shared: (in == nfsv4.READ_LT || in == nfsv4.READW_LT) ==>
+//@             r1 == nfsv4.NFS4_OK && r0 == virtual.ByteRangeLockTypeLockedShared
+//@   ensures write-is-exclusive: (in == nfsv4.WRITE_LT || in == nfsv4.WRITEW_LT) ==>
+//@             r1 == nfsv4.NFS4_OK && r0 == virtual.ByteRangeLockTypeLockedExclusive
+//@   ensures other-invalid: !(in == nfsv4.READ_LT || in == nfsv4.READW_LT || in == nfsv4.WRITE_LT || in == nfsv4.WRITEW_LT) ==>
+//@             r1 == nfsv4.NFS4ERR_INVAL
+//@   ensures never-unlocked: r1 == nfsv4.NFS4_OK ==> r0 != virtual.ByteRangeLockTypeUnlocked
+
+// OpenedFile.Lock = test-then-set in one critical section, on the converted range.
+//@ func (*OpenedFile).Lock
+//@   props C20
+//@   at call Set#1 assert set-only-after-test-passed: conflictingLock == nil
+//@   at call Set#1 assert in-critical-section: held(of.locksLock) == 1
+//@   at call Set#1 assert same-lock-as-tested: arg1 == &lock
+//@   at call Test#1 assert in-critical-section: held(of.locksLock) == 1
+//@   at call Test#1 assert converted-range: lock.Start == start && lock.End == end && lock.Owner == lockOwner && lock.Type == byteRangeLockType
+//@   at call Test#1 assert locking-type: lock.Type != virtual.ByteRangeLockTypeUnlocked
+//@ func (*OpenedFile).Unlock
+//@   props C20
+//@   at call Set#1 assert in-critical-section: held(of.locksLock) == 1
+//@   at call Set#1 assert unlock-converted-range: lock.Start == start && lock.End == end && lock.Owner == lockOwner &&
+//@             lock.Type == virtual.ByteRangeLockTypeUnlocked
+//@ func (*OpenedFile).UnlockAll
+//@   props C20
+//@   at call Set#1 assert in-critical-section: held(of.locksLock) == 1
+//@   at call Set#1 assert unlock-everything-of-owner: lock.Start == 0 && lock.End == MaxUint64 && lock.Owner == lockOwner &&
+//@             lock.Type == virtual.ByteRangeLockTypeUnlocked
+//@ func (*OpenedFilesPool).TestLock
+//@   props C20
+//@   at call Test#1 assert in-critical-section: held(of.locksLock) == 1
+//@   at call Test#1 assert converted-range: lock.Start == start && lock.End == end && lock.Owner == lockOwner && lock.Type == byteRangeLockType
+
+// ---------------------------------------------------------------------------
+// Reference and share counting (C18)
+
+//@ pred hasR(m virtual.ShareMask) := m & 1 != 0
+//@ pred hasW(m virtual.ShareMask) := m & 2 != 0
+//@ pred scInv(sc *shareCount, sa virtual.ShareMask) :=
+//@      sc.readers >= 0 && sc.writers >= 0 && (hasR(sa) ==> sc.readers >= 1) && (hasW(sa) ==> sc.writers >= 1)
+//@ pred b2i(b bool) := ite(b, 1, 0)
+
+//@ func (*referenceCount).increase
+//@   props C18
+//@   assume *rc < MaxInt64 -- a reference count cannot reach 2^63
+//@   modifies *rc
+//@   panics_if *rc <= 0
+//@   ensures incremented: *rc == old(*rc) + 1
+//@ func (*referenceCount).decrease
+//@   props C18
+//@   modifies *rc
+//@   panics_if *rc <= 0
+//@   ensures decremented: *rc == old(*rc) - 1
+//@   ensures reports-zero: r0 == (*rc == 0)
+
+// upgrade: the caller has just opened the leaf with newShareAccess. The
+// returned mask is exactly the set of access modes that were open already,
+// i.e. the redundant opens the caller must close again.
+//@ func (*shareCount).upgrade
+//@   props C18
+//@   safety nopanic
+//@   requires scInv(sc, *shareAccess) && *shareAccess <= 3 && newShareAccess <= 3
+//@   assume sc.readers < MaxInt64 && sc.writers < MaxInt64 -- a reference count cannot reach 2^63
+//@   ensures mask: *shareAccess == (old(*shareAccess) | newShareAccess)
+//@   ensures readers: sc.readers == old(sc.readers) + b2i(hasR(newShareAccess) && !hasR(old(*shareAccess)))
+//@   ensures writers: sc.writers == old(sc.writers) + b2i(hasW(newShareAccess) && !hasW(old(*shareAccess)))
+//@   ensures redundant-read: hasR(r0) == (hasR(newShareAccess) && old(sc.readers) > 0)
+//@   ensures redundant-write: hasW(r0) == (hasW(newShareAccess) && old(sc.writers) > 0)
+//@   ensures result-is-mask: r0 <= 3
+//@   ensures inv: scInv(sc, *shareAccess)
+//@   ensures underlying-opens-read: b2i(sc.readers > 0) == b2i(old(sc.readers) > 0) + b2i(hasR(newShareAccess)) - b2i(hasR(r0))
+//@   ensures underlying-opens-write: b2i(sc.writers > 0) == b2i(old(sc.writers) > 0) + b2i(hasW(newShareAccess)) - b2i(hasW(r0))
+
+// downgrade: the returned mask is exactly the set of access modes nobody
+// holds any longer, i.e. the underlying opens the caller must close.
+//@ func (*shareCount).downgrade
+//@   props C18
+//@   safety nopanic
+//@   requires scInv(sc, *shareAccess) && *shareAccess <= 3 && newShareAccess <= 3
+//@   ensures mask: *shareAccess == newShareAccess
+//@   ensures readers: sc.readers == old(sc.readers) - b2i(hasR(old(*shareAccess)) && !hasR(newShareAccess))
+//@   ensures writers: sc.writers == old(sc.writers) - b2i(hasW(old(*shareAccess)) && !hasW(newShareAccess))
+//@   ensures last-read: hasR(r0) == (hasR(old(*shareAccess)) && !hasR(newShareAccess) && old(sc.readers) == 1)
+//@   ensures last-write: hasW(r0) == (hasW(old(*shareAccess)) && !hasW(newShareAccess) && old(sc.writers) == 1)
+//@   ensures result-is-mask: r0 <= 3
+//@   ensures inv: (newShareAccess & ^old(*shareAccess) & 3) == 0 ==> scInv(sc, newShareAccess)
+//@   ensures underlying-opens-read: b2i(sc.readers > 0) == b2i(old(sc.readers) > 0) - b2i(hasR(r0))
+//@   ensures underlying-opens-write: b2i(sc.writers > 0) == b2i(old(sc.writers) > 0) - b2i(hasW(r0))
+
+//@ func (*shareCount).clone
+//@   props C18
+//@   safety nopanic
+//@   requires shareAccess <= 3 && (hasR(shareAccess) ==> sc.readers >= 1) && (hasW(shareAccess) ==> sc.writers >= 1)
+//@   assume sc.readers < MaxInt64 && sc.writers < MaxInt64 -- a reference count cannot reach 2^63
+//@   ensures same-mask: r0 == shareAccess
+//@   ensures readers: sc.readers == old(sc.readers) + b2i(hasR(shareAccess))
+//@   ensures writers: sc.writers == old(sc.writers) + b2i(hasW(shareAccess))
+
+// ---------------------------------------------------------------------------
+// NFSv4.0 sequencing of open-owner and lock-owner requests (C19)
+
+//@ pred nextSeq(s mathint) := ite(s == MaxUint32, 1, s + 1)
+//@ pred shouldComplete(st nfsv4.Nfsstat4) :=
+//@      st != nfsv4.NFS4ERR_STALE_CLIENTID && st != nfsv4.NFS4ERR_STALE_STATEID && st != nfsv4.NFS4ERR_BAD_STATEID &&
+//@      st != nfsv4.NFS4ERR_BAD_SEQID && st != nfsv4.NFS4ERR_BADXDR && st != nfsv4.NFS4ERR_RESOURCE &&
+//@      st != nfsv4.NFS4ERR_NOFILEHANDLE && st != nfsv4.NFS4ERR_MOVED
+
+//@ stub (pkg/filesystem/virtual/nfsv4.responseMessage).GetStatus
+//@   pure
+//@   ensures r0 == uf("status", arg0)
+
+//@ func nextSeqID
+//@   props C19
+//@   ensures successor: r0 == nextSeq(seqID)
+//@   ensures skips-zero: r0 != 0
+//@ func transactionShouldComplete
+//@   props C19
+//@   ensures rfc7530-9-1-7: r0 == shouldComplete(st)
+//@ func isNextStateID
+//@   props C19
+//@   ensures same-other-next-seqid: r0 == (a.Other == b.Other && a.Seqid == nextSeq(b.Seqid))
+
+//@ pred ooReplay(oos *nfs40OpenOwnerState, seqID nfsv4.Seqid4) := oos.lastResponse != nil && seqID == oos.lastSeqID
+//@ func (*nfs40OpenOwnerState).startTransaction
+//@   props C19
+//@   panics_if oos.currentTransactionWait != nil
+//@   ensures replay-returns-cached-without-effects: old(ooReplay(oos, seqID)) ==>
+//@             r0 == nil && r1 == old(oos.lastResponse.response) && r2 == nfsv4.NFS4ERR_BAD_SEQID && unchanged()
+//@   ensures misordered-confirmed-rejected-without-effects:
+//@             !old(ooReplay(oos, seqID)) && old(oos.confirmed) && seqID != nextSeq(old(oos.lastSeqID)) ==>
+//@             r0 == nil && r1 == nil && r2 == nfsv4.NFS4ERR_BAD_SEQID && unchanged()
+//@   ensures misordered-unconfirmed-rejected-without-effects:
+//@             !old(ooReplay(oos, seqID)) && !old(oos.confirmed) &&
+//@             (policy == unconfirmedOpenOwnerPolicyDeny ||
+//@              (policy == unconfirmedOpenOwnerPolicyAllow && seqID != nextSeq(old(oos.lastSeqID)))) ==>
+//@             r0 == nil && r1 == nil && r2 == nfsv4.NFS4ERR_BAD_SEQID && unchanged()
+//@   ensures started: r2 == nfsv4.NFS4_OK ==>
+//@             r0 != nil && r0.seqID == seqID && r0.state == oos && r0.program == p &&
+//@             oos.currentTransactionWait != nil && oos.lastResponse == nil
+//@   ensures only-started-in-order: r2 == nfsv4.NFS4_OK && old(oos.confirmed) ==> seqID == nextSeq(old(oos.lastSeqID))
+//@   ensures ok-or-bad-seqid: r2 == nfsv4.NFS4_OK || r2 == nfsv4.NFS4ERR_BAD_SEQID
+//@   ensures no-transaction-on-error: r2 != nfsv4.NFS4_OK ==> r0 == nil
+
+//@ func (*openOwnerTransaction).complete
+//@   props C19
+//@   requires oot.state != nil && lastResponse != nil
+//@   ensures transaction-closed: old(oot.state).currentTransactionWait == nil
+//@   ensures reply-recorded: shouldComplete(uf("status", old(lastResponse.response))) ==>
+//@             old(oot.state).lastSeqID == old(oot.seqID) && old(oot.state).lastResponse == lastResponse
+//@   ensures reply-not-recorded: !shouldComplete(uf("status", old(lastResponse.response))) ==>
+//@             old(oot.state).lastSeqID == old(oot.state.lastSeqID) && old(oot.state).lastResponse == old(oot.state.lastResponse)
+
+//@ pred loReplay(los *nfs40LockOwnerState, seqID nfsv4.Seqid4) := los.lastResponse != nil && seqID == los.lastSeqID
+//@ func (*nfs40LockOwnerState).startTransaction
+//@   props C19
+//@   ensures replay-returns-cached-without-effects: old(loReplay(los, seqID)) ==>
+//@             r0 == nil && r1 == old(los.lastResponse) && r2 == nfsv4.NFS4ERR_BAD_SEQID && unchanged()
+//@   ensures misordered-rejected-without-effects:
+//@             !old(loReplay(los, seqID)) && !initialTransaction && seqID != nextSeq(old(los.lastSeqID)) ==>
+//@             r0 == nil && r1 == nil && r2 == nfsv4.NFS4ERR_BAD_SEQID && unchanged()
+//@   ensures started: r2 == nfsv4.NFS4_OK ==>
+//@             r0 != nil && r0.seqID == seqID && r0.state == los && r0.program == p && los.lastResponse == nil
+//@   ensures ok-or-bad-seqid: r2 == nfsv4.NFS4_OK || r2 == nfsv4.NFS4ERR_BAD_SEQID
+//@   ensures no-transaction-on-error: r2 != nfsv4.NFS4_OK ==> r0 == nil
+
+//@ func (*lockOwnerTransaction).complete
+//@   props C19
+//@   requires lot.state != nil && lastResponse != nil
+//@   ensures reply-recorded: shouldComplete(uf("status", lastResponse)) ==>
+//@             old(lot.state).lastSeqID == old(lot.seqID) && old(lot.state).lastResponse == lastResponse
+//@   ensures reply-not-recorded: !shouldComplete(uf("status", lastResponse)) ==>
+//@             old(lot.state).lastSeqID == old(lot.state.lastSeqID) && old(lot.state).lastResponse == old(lot.state.lastResponse)
